@@ -10,11 +10,15 @@ def drive(rep, prop, *, make_scn, judge, n_sim, n_real, real_first=True, handles
         if rep.expired():
             rep.count('skipped_for_time')
             continue
+        if handles_spin and sum(1 for v in rep.violations if v['msg'].startswith('run_tasks never terminates')) >= 2:
+            rep.count('stopped_after_repeated_hangs')
+            break
         rng = scenario_rng(rep.seed, prop + kind, j)
         scn = make_scn(rng, kind == 'real')
         out = engine.run_dag(scn)
         if getattr(out, 'aborted', None):
-            if out.aborted.startswith('spin') and handles_spin:
+            hang = out.aborted.startswith('watchdog') and not getattr(out, 'alive_at_abort', None)
+            if (out.aborted.startswith('spin') or hang) and handles_spin:
                 rep.violation(handles_spin if isinstance(handles_spin, str) else 'never-terminates',
                               f'run_tasks never terminates / never starts runnable work: {out.aborted}',
                               {'scenario': scn})
